@@ -13,7 +13,7 @@ RULE = ('histories through the real main_loop with a table monitor (no duplicate
         '(a) exhaustive interleavings with <=1 duplicated datagram and sampled ones with <=3 duplicates of IKE rekey / delete '
         'exchanges from either side, (b) a hub with several peers and simultaneous initiations under random schedules with '
         'duplication, (c) header SPI x flag x exchange-type matrix of forged datagrams, (d) status query compared with the table, '
-        '(f) IKE_SA_INIT requests that cannot be processed (truncated, bad lengths, wrong first payload) leave nothing in the table and the next negotiation with that peer works; (e) kernel EXPIRE routing incl. a peer-chosen SPI collision (notices echo the xfrm_usersa_info the SA was installed with; same-family, 4in6 and 6in4 tunnels). distinct = distinct action sequences / matrix cells.')
+        '(g) INFORMATIONAL requests of an independent peer with several DELETE payloads in every order (also with equal SPI values at both ends): the IKE_SA leaves the table with all its kernel SAs; (f) IKE_SA_INIT requests that cannot be processed (truncated, bad lengths, wrong first payload) leave nothing in the table and the next negotiation with that peer works; (e) kernel EXPIRE routing incl. a peer-chosen SPI collision (notices echo the xfrm_usersa_info the SA was installed with; same-family, 4in6 and 6in4 tunnels). distinct = distinct action sequences / matrix cells.')
 ASSUMPTIONS = ['peers run the repository code; forged datagrams carry no valid checksum (routing is observed, not acceptance)',
                'the SPI collision is produced by forcing the peer\'s os.urandom for its inbound SPI (ESP SPIs are public on the wire)']
 SHARDS = {'quick': 8, 'thorough': 16}
@@ -463,6 +463,68 @@ def run(ck):
             ck.violation('negotiation-after-unprocessable-ike-sa-init-requests-failed', {'hub': [(x.state.name, x.is_initiator) for x in hub.ctl.ike_sas], 'p1': [x.state.name for x in p1.ctl.ike_sas]}, sim.case)
         check_status(ck, sim, hub)
 
+    # (g) the ways an IKE_SA ENDS, from an independent peer with valid keys: INFORMATIONAL requests with several DELETE payloads in every order; afterwards the
+    # IKE_SA is out of the table and none of its kernel SAs is left (also when both ends drew equal SPI values)
+    from vf.ref import party as _party
+    from vf.checks import c02 as _c02, c10 as _c10
+    dlists = ['ike', 'esp,ike', 'ike,esp', 'esp-unknown,ike', 'ah,ike', 'esp,esp2,ike', 'ike,ike', 'notify,ike', 'esp', 'esp,esp2']
+    for w in range(len(dlists) * (2 if not ck.thorough() else 20)):
+        if not ck.mine(w + 3):
+            continue
+        label = dlists[w % len(dlists)]
+        equal = (w // len(dlists)) % 2 == 1
+        real_os = S.r_ikesa.os
+        if equal:
+            S.r_ikesa.os = _c10._EqualSpis(real_os)
+        try:
+            sim, a, b = S.make_pair(base + 809 * w, dpd=600, lifetime=3600)
+            sim.case = {'family': 'ike-sa-ends', 'delete_payloads': label, 'equal_spi_values': equal}
+            for m in mons:
+                m.reset()
+                sim.monitors.append(m.on_step)
+            rngg = ck.rng('ends', w)
+            p = _party.RefParty(S.A4, S.B4, rngg)
+            trs = [{'type': 1, 'id': 12, 'keylen': 256}, {'type': 3, 'id': 12, 'keylen': None}, {'type': 2, 'id': 5, 'keylen': None}, {'type': 4, 'id': 19, 'keylen': None}]
+            sim.inject(b, S.A4, S.B4, p.init_request(trs, 19))
+            if not sim.net or not p.take_init_response(sim.net.pop(0).data):
+                continue
+            child = [{'type': 1, 'id': 12, 'keylen': 256}, {'type': 3, 'id': 12, 'keylen': None}, {'type': 5, 'id': 0, 'keylen': None}]
+            a4, b4 = bytes([192, 0, 2, 1]), bytes([192, 0, 2, 2])
+            tsi = [{'tstype': 7, 'ipproto': 6, 'sport': 0, 'eport': 65535, 'saddr': a4, 'eaddr': a4}]
+            tsr = [{'tstype': 7, 'ipproto': 6, 'sport': 23, 'eport': 23, 'saddr': b4, 'eaddr': b4}]
+            if equal:
+                p.child_spi = bytes([0x11, 0x22, 0x33, 1])
+            sim.inject(b, S.A4, S.B4, p.auth_request(_c02.ID_A[0], _c02.ID_A[1], 2, p.auth_psk(_c02.PSK_A, *_c02.ID_A), child, 3, tsi, tsr, True))
+            sim.net.clear()
+            if not b.ctl.ike_sas or not b.ctl.ike_sas[0].child_sas or len(b.kernel.sad) != 2:
+                ck.count('ends.setup_failed')
+                continue
+            c0 = b.ctl.ike_sas[0].child_sas[0]
+            D = {'ike': {'type': 42, 'critical': False, 'proto': 1, 'spis': []}, 'esp': {'type': 42, 'critical': False, 'proto': 3, 'spis': [p.child_spi]},
+                 'esp2': {'type': 42, 'critical': False, 'proto': 3, 'spis': [bytes(c0.inbound_spi)]}, 'esp-unknown': {'type': 42, 'critical': False, 'proto': 3, 'spis': [gen.rb(rngg, 4)]},
+                 'ah': {'type': 42, 'critical': False, 'proto': 2, 'spis': [p.child_spi]}, 'notify': {'type': 41, 'critical': False, 'proto': 0, 'spi': b'', 'ntype': 16384, 'data': b''}}
+            sim.inject(b, S.A4, S.B4, p.seal(37, 2, [D[x_] for x_ in label.split(',')], response=False))
+            answered = bool(sim.net)
+            sim.net.clear()
+            b.step('tick')
+            ck.count('ends.runs')
+            ck.seen('ends.kinds', (label, equal))
+            ck.nontrivial(('ike-sa-ends', label, equal))
+            if 'ike' in label.split(','):
+                if b.ctl.ike_sas or b.kernel.sad:
+                    ck.violation(f"ike-sa-not-removed-with-its-kernel-sas-after-a-delete-exchange:{'table' if b.ctl.ike_sas else 'kernel-sas-left'}",
+                                 {'delete_payloads': label, 'table': [x.state.name for x in b.ctl.ike_sas], 'sad': len(b.kernel.sad), 'equal_spi_values': equal}, sim.case)
+                else:
+                    ck.count('ends.removed_with_kernel_sas')
+            else:
+                if len(b.ctl.ike_sas) != 1 or b.ctl.ike_sas[0].state.name != 'ESTABLISHED' or b.kernel.sad:
+                    ck.violation('child-sa-delete-request-did-not-leave-an-established-ike-sa-with-an-empty-sad', {'delete_payloads': label, 'table': [x.state.name for x in b.ctl.ike_sas], 'sad': len(b.kernel.sad)}, sim.case)
+            if not answered:
+                ck.violation('delete-request-from-an-authentic-peer-not-answered', {'delete_payloads': label}, sim.case)
+            check_status(ck, sim, b)
+        finally:
+            S.r_ikesa.os = real_os
+
     # (e) EXPIRE routing with a peer-chosen SPI collision (hub, P1, P2)
     ncol = 12 if not ck.thorough() else 200
     for w in range(ncol):
@@ -559,6 +621,7 @@ def verdict(ck):
     ck.floor('status queries', ck.counters['status.queries'], 1000)
     ck.floor('expire notices', ck.counters['expire.checked'], 100)
     ck.floor('SPI collision set-ups', ck.counters['collision.setups'], 6)
+    ck.floor('IKE_SAs ended by DELETE payload lists of an independent peer and removed with their kernel SAs', ck.counters['ends.removed_with_kernel_sas'], 12)
     ck.floor('runs with IKE_SA_INIT requests that cannot be processed', ck.counters['badinit.runs'], 20)
     ck.floor('SPI collision star kinds (same family, 4in6, 6in4)', len(ck.sets['collision.star_kinds']), 3)
     ck.floor('SPI collision set-ups inside one IKE_SA', ck.counters['collision.same_ike_sa_setups'], 6)
